@@ -423,7 +423,7 @@ V("c10-iat-reversed", "C10", "break", "R10.1", "iat comparison reversed",
   "rfc7519/registry.py", "            raise InvalidClaimError(\"iat\")\n        if value > (self.now + self.leeway):", "            raise InvalidClaimError(\"iat\")\n        if value < (self.now + self.leeway):")
 V("c10-exp-no-type-guard", "C10", "break", "R10.2", "exp compared without the numeric guard",
   "rfc7519/registry.py", "        if not _validate_numeric_time(value):\n            raise InvalidClaimError(\"exp\")\n", "")
-V("c10-exp-wrong-error", "C10", "break", "R10.1", "expired tokens raise InvalidTokenError",
+V("c10-exp-wrong-error", "C10", "break", "R10.3", "expired tokens raise InvalidTokenError",
   "rfc7519/registry.py", "            raise ExpiredTokenError()", "            raise InvalidTokenError()")
 V("c10-essential-truthy", "C10", "break", "R10.4", "essential claims must be truthy (0 / False rejected)",
   "rfc7519/registry.py", "if claims.get(key) is None}", "if not claims.get(key)}")
